@@ -75,17 +75,12 @@ def generate(seed: int, tier: str = "quick") -> dict:
         # pauses longer than the socket timeout, placed exactly BETWEEN frames; the application asks
         # again after each end of stream.  Frame boundaries - and therefore the per-frame verdicts -
         # are untouched, so the constructive oracle still applies.
-        sizes = [len(link.frame_bytes(f)) for f in frames]
-        segs, t = [], 0.0
-        for n_bytes in sizes:
-            if n_bytes == 0:
-                continue
-            if segs and r_sch.random() < 0.4:
-                t = round(t + r_sch.choice((1.5, 3.0, 4.5)), 6)
-            elif segs and r_sch.random() < 0.5:
-                t = round(t + 0.01, 6)
-            segs.append([t, n_bytes])
-        tr = {"kind": "socket", "segments": segs, "timeout": 1.0, "end": r_sch.choice(("close", "timeout")), "host_delay": 0.0, "rereads": 16, "redrive_all": True, "stress": "boundary_stall"}
+        # the pause before each frame is stored WITH the frame, and the arrival schedule is derived
+        # from the frames at execution time: whatever the minimiser removes, pauses stay on boundaries
+        for f in frames:
+            roll = r_sch.random()
+            f["gap"] = r_sch.choice((1.5, 3.0, 4.5)) if roll < 0.4 else 0.01 if roll < 0.7 else 0.0
+        tr = {"kind": "socket", "timeout": 1.0, "end": r_sch.choice(("close", "timeout")), "host_delay": 0.0, "rereads": 16, "redrive_all": True, "stress": "boundary_stall"}
         cfg["bufsize"] = r_sch.choice((64, 1024, 4096))
     if r_cfg.random() < 0.5:
         # another reader with another policy / handler is alive while this one is read
@@ -117,6 +112,14 @@ def _run(scn, res=None):
     cfg0 = scn["config"]
     wire = link.wire_of(scn["frames"])
     tr = scn["transport"]
+    if tr.get("stress") == "boundary_stall":
+        segs, t = [], 0.0
+        for f in scn["frames"]:
+            n_bytes = len(link.frame_bytes(f))
+            if n_bytes:
+                t = round(t + (f.get("gap", 0.0) if segs else 0.0), 6)
+                segs.append([t, n_bytes])
+        tr = dict(tr, segments=segs, timeout=1.0)
     log = run_reader(wire, dict(cfg0, quitonerror=1, handler=True), tr)
     if log.exc and log.exc[0] in common.proto_error_names():
         # a *protocol* rejection must be reported through the policy, never raised under ERR_LOG
